@@ -414,7 +414,7 @@ def run(ctx):
     else:
         wide = [c for c in cases if c.get("shape") not in ("exh", "corpus")]
         wide.sort(key=lambda c: -max(len(b["k"]) for b in c["batches"]))
-        sel = [dict(c, dump=False, proofs=0) for c in wide[:(80 if ctx.tier == "quick" else 4000)]]
+        sel = [dict(c, dump=False, proofs=0) for c in wide[:(80 if ctx.tier == "quick" else 1500)]]
         raced, rlog = tg.run_race(ctx, rbin, sel, "c10race")
         ctx.cov["race_detector"] = {"cases": len(sel), "data_race_reported": raced}
         if raced:
